@@ -17,6 +17,9 @@ def make_input(B, layout, n, p, cplx=False, flags=None, name="x", nan_cols=(), n
     """-> (data object, sample dim(s), feature dims of the first item)"""
     if layout == "2d":
         return da2d(B, name, n, p, cplx), "time", ("x",)
+    if layout == "2d-internal-names":
+        # the user's dimensions are literally called like the model's internal ones
+        return da2d(B, name, n, p, cplx, sample="sample", feat="feature"), "sample", ("feature",)
     if layout == "2d-T":
         X = da2d(B, name, n, p, cplx)
         return X.transpose("x", "time"), "time", ("x",)
@@ -38,6 +41,10 @@ def make_input(B, layout, n, p, cplx=False, flags=None, name="x", nan_cols=(), n
         A = da2d(B, name + "a", n, pa, cplx)
         Bv = da2d(B, name + "b", n, p - pa, cplx, feat="y")
         return [A, Bv], "time", ("x",)
+    if layout == "list12":
+        # twelve list items, each with its own feature dimension name and size (1 or 2): keys '0'..'11' sort differently as strings
+        items = [da2d(B, f"{name}{i}", n, 1 + (i % 2 if i < 2 else 0), cplx, feat=f"f{i}") for i in range(12)]
+        return items, "time", ("f0",)
     if layout == "multiindex":
         n1 = 2
         n2 = (n + 1) // 2
